@@ -50,6 +50,23 @@ def alias_scenarios():
             sc.alias = 'nested destination entries are hard links of the source files'; out.append(sc)
             sc = mk(); sc.d(b'/W/OUT/d').l(b'/W/OUT/d/m', b'../../d/m'); sc.opts = ['r']; sc.paths = pre + [b'd', b'OUT']; sc.alias = 'a nested destination entry is a symbolic link to the source file'; out.append(sc)
             sc = mk(); sc.opts = ['r']; sc.paths = pre + [b'd/sub/fifo', b'd/sub/']; sc.alias = 'special file into its own directory'; out.append(sc)
+    # the same aliases with --backup: a backup is a RENAME of the destination entry — when that entry is the source itself it
+    # must not be renamed away either
+    import copy
+    for sc in list(out):
+        if sc.alias.startswith(('a sub-directory of the target', 'a nested destination entry', 'target directory entry is a symbolic link', 'nested destination entries are hard links', 'destination is a')):
+            for mode in ('numbered', 'auto'):
+                s2 = copy.deepcopy(sc); s2.extra = list(s2.extra) + [f'--backup={mode}']; s2.alias = sc.alias + f', --backup={mode}'; s2.no_model = True
+                out.append(s2)
+    # with --glob only the SOURCES are patterns: a destination whose name contains pattern characters is that name, not whatever
+    # bystander happens to match it
+    for driver in ('parfile', 'parblock'):
+        sc = treerun.Scn(); sc.driver = driver
+        sc.d(b'/W').d(b'/W/src').f(b'/W/src/a.txt').f(b'/W/src/b.txt').d(b'/W/v1').f(b'/W/v1/a.txt').f(b'/W/v1/notes').d(b'/W/v[1]').d(b'/W/w?').d(b'/W/wx').f(b'/W/wx/a.txt')
+        sc.opts = ['glob']; sc.paths = [b'src/*.txt', b'v[1]']; sc.alias = 'glob: destination name with pattern characters next to a bystander it matches'; sc.no_model = True
+        sc.allowed = [b'W/v[1]']
+        out.append(sc)
+        s2 = copy.deepcopy(sc); s2.paths = [b'src/*.txt', b'w?']; s2.allowed = [b'W/w?']; out.append(s2)
     return out
 
 
@@ -82,7 +99,7 @@ def run(ctx):
             ctx.count('alias.' + sc.alias.split(',')[0][:40]); ctx.count(f'exit.{r.cls}')
             ctx.case(('alias', sc.alias, tuple(sc.paths), sc.driver), True, sample=dict(alias=sc.alias, argv=[x.decode() if isinstance(x, bytes) else x for x in argv], exit=r.cls) if i in (0, 3) else None)
             # everything that existed is protected here: the only legitimate effect of these invocations is to create NEW entries
-            diff = protected_diff(before, after, [])
+            diff = protected_diff(before, after, getattr(sc, 'allowed', []))
             if r.cls == 'hang':
                 diff.append('hung')
             if diff:
